@@ -84,7 +84,7 @@ def run_check(prop, tier, repo=None, quiet=False):
                 import contextlib
                 buf = io.StringIO()
                 with contextlib.redirect_stdout(buf):
-                    res = selftest(repo, None, [prop], 8)
+                    res = selftest(repo, None, [prop], 8, neg_sample=72, seed=seed)
                 ctx.extra["mutant_selftest"] = dict(
                     total=len(res),
                     caught=[r["name"] for r in res if r["status"] == "caught"],
@@ -95,9 +95,11 @@ def run_check(prop, tier, repo=None, quiet=False):
                 )
                 from .selftest import cross_negatives
                 with contextlib.redirect_stdout(buf):
-                    xbad = cross_negatives(repo, 8, only_props=[prop], exclude_own=True)
+                    xbad = cross_negatives(repo, 8, only_props=[prop], exclude_own=True, sample=72, seed=seed)
                 ctx.extra["mutant_selftest"]["other_properties_behaviour_preserving_mutants"] = dict(
-                    runs=getattr(cross_negatives, "last_runs", None), not_silent=[r["name"] for r in xbad])
+                    runs=getattr(cross_negatives, "last_runs", None), of_total=getattr(cross_negatives, "last_total", None),
+                    note="a window of 72 behaviour-preserving mutants, rotating with VERIF_SEED; the whole matrix: ./vf.sh selftest --cross-negatives",
+                    not_silent=[r["name"] for r in xbad])
                 print("selftest: %d mutants of %s: %d caught, %d silent-as-expected, %d missed, %d false alarms, %d skipped" % (
                     len(res), prop, len(ctx.extra["mutant_selftest"]["caught"]), len(ctx.extra["mutant_selftest"]["silent_on_behaviour_preserving"]),
                     len(ctx.extra["mutant_selftest"]["missed"]), len(ctx.extra["mutant_selftest"]["false_alarms"]), len(ctx.extra["mutant_selftest"]["skipped"])))
